@@ -56,8 +56,8 @@ type hframe struct {
 	digest string
 }
 
-var legalNames = []string{"a", "b", "c", "d", "e", "k", "x y", "Ω", "colcol-temp-0", "const-temp-0", "unary-temp-0", "A"}
-var illegalNames = []string{"", "$a", "'q'", "\"qq\""}
+var legalNames = []string{"a", "b", "c", "d", "e", "k", "x y", "Ω", "colcol-temp-0", "const-temp-0", "unary-temp-0", "A", " id", "name ", "it's", "'q"}
+var illegalNames = []string{"", "$a", "'q'", "\"qq\"", "'it's'", "'''", "\"a\"b\"", "''", "$"}
 
 var strAlphabet = []string{"", "a", "b", "ab", "B", "abc", "b,c", "q\"t", "x\ny", " lead", "é", "ı", "\x00", "\xff\xfe", "zz", "A",
 	"a\ufffdb", "\u2028", "l\u2029", "t\tb", "back\\slash", "\x7f", "<&>", "\x1f", "日本", "\xe2\x82", "x\n", "\n", "a\n\n"}
@@ -190,6 +190,13 @@ func (g *gen) genNew() {
 	// key test frames: few columns over tiny alphabets, always with a bool column, enough rows for every combination
 	// to occur several times and for rows to differ in one column only (grouping / Distinct over all columns)
 	keytest := !malformed && (r.P(1, 12) || (g.opt["keyheavy"] != "" && r.P(1, 3)))
+	// long constant columns: a frame of one to three constant columns with a row count beyond the block sizes a
+	// constructor might fill by (1024, 2048), every row observed
+	bigconst := !malformed && !keytest && g.opt["newonly"] == "" && r.P(1, 60)
+	if bigconst {
+		ncols = 1 + r.Intn(3)
+		n = r.PickInt([]int{1023, 1025, 2047, 2500, 3000})
+	}
 	if keytest {
 		ncols = 2 + r.Intn(2)
 		n = 8 + r.Intn(12)
@@ -223,6 +230,9 @@ func (g *gen) genNew() {
 		// value alphabet per column: narrow (many ties: group keys) or wide (mostly distinct: sorting by it permutes the rows freely)
 		g.wide = r.P(1, 3)
 		kind := r.Pick([]string{"I", "I", "F", "F", "B", "S", "S", "T", "EN", "EN", "CI", "CF", "CB", "CS"})
+		if bigconst {
+			kind = r.Pick([]string{"CS", "CS", "CI", "CF", "CB"})
+		}
 		if keytest {
 			g.wide = false
 			kind = []string{"B", "I", "S", "EN"}[(c+r.Intn(2))%4]
@@ -1639,11 +1649,30 @@ func (g *gen) genExpr(f *hframe, depth int, typ string, bad bool) exprT {
 	if bad && r.P(1, 3) {
 		switch r.Intn(3) {
 		case 0:
-			return exprT{types.ColumnName("nosuch"), []string{"C", tx.HexS("nosuch")}}
+			// a reference to a column the frame does not have — also under the names Eval gives its temporary
+			// columns: another part of the expression may have created a column of that name meanwhile
+			name := "nosuch"
+			if r.Bool() {
+				cand := r.Pick([]string{"colcol-temp-0", "const-temp-0", "unary-temp-0", "colcol-temp-1", "const-temp-1"})
+				present := false
+				for _, c := range f.cols {
+					if c.name == cand {
+						present = true
+					}
+				}
+				if !present {
+					name = cand
+				}
+			}
+			return exprT{types.ColumnName(name), []string{"C", tx.HexS(name)}}
 		case 1:
 			if r.Bool() {
 				// a raw list expression with more than three elements is malformed (only Expr folds n-ary operands)
 				return exprT{[]interface{}{"+", 1, 2, 3}, []string{"BADARG"}}
+			}
+			if r.P(1, 3) {
+				// an empty list in expression position
+				return exprT{[]interface{}{}, []string{"BADARG"}}
 			}
 			return exprT{struct{}{}, []string{"BADARG"}}
 		default:
@@ -1699,6 +1728,30 @@ func (g *gen) genExpr(f *hframe, depth int, typ string, bad bool) exprT {
 		case "b":
 			a := g.genExpr(f, depth-1, "i", bad)
 			return exprT{qframe.Expr("bool", a.e), append([]string{"X", tx.HexS("bool"), "1"}, a.toks...)}
+		}
+	}
+	if !bad && len(cols) > 0 && r.P(1, 15) {
+		// (c1 op c2) op <a column the frame does not have, named as the temporary column the left operand creates>
+		// (and mirrored): the reference must be reported as unknown, not resolved against the temporary
+		present := func(n string) bool {
+			for _, c := range f.cols {
+				if c.name == n {
+					return true
+				}
+			}
+			return false
+		}
+		if !present("colcol-temp-0") && !present("colcol-temp-1") {
+			op := ops[1][r.Intn(len(ops[1]))]
+			c1, c2 := cols[r.Intn(len(cols))], cols[r.Intn(len(cols))]
+			inner := qframe.Expr(op, types.ColumnName(c1.name), types.ColumnName(c2.name))
+			itoks := []string{"X", tx.HexS(op), "2", "C", tx.HexS(c1.name), "C", tx.HexS(c2.name)}
+			ghost := r.Pick([]string{"colcol-temp-0", "colcol-temp-0", "colcol-temp-1"})
+			gtoks := []string{"C", tx.HexS(ghost)}
+			if r.Bool() {
+				return exprT{qframe.Expr(op, inner, types.ColumnName(ghost)), append(append([]string{"X", tx.HexS(op), "2"}, itoks...), gtoks...)}
+			}
+			return exprT{qframe.Expr(op, types.ColumnName(ghost), inner), append(append([]string{"X", tx.HexS(op), "2"}, gtoks...), itoks...)}
 		}
 	}
 	op := ops[1][r.Intn(len(ops[1]))]
